@@ -236,7 +236,17 @@ Fixpoint not_resubmitted (id : N) (h : list op) : bool :=
    both and leaves the other fields alone. *)
 Record kube_rec := mkkube { k_config : bytes; k_pod : bytes; k_namespace : bytes; k_image : bytes }.
 
-Definition kube_view (r : kube_rec) : kube_rec := mkkube [] [] (k_namespace r) (k_image r).
+(* the permission flags of a Kubernetes work type (work-kubernetes: allowruntimeauth,
+   allowruntimepod, allowruntimecommand, allowruntimeparams).  They decide which parameters a
+   submission may carry (SetFromParams); the blanking in Status () does not look at them. *)
+Record kube_flags := mkflags { f_auth : bool; f_pod : bool; f_command : bool; f_params : bool }.
+
+Definition kube_view (fl : kube_flags) (r : kube_rec) : kube_rec := mkkube [] [] (k_namespace r) (k_image r).
+
+(* SetFromParams: a parameter the work type does not allow refuses the submission *)
+Definition kube_accepts (fl : kube_flags) (has_config has_pod has_namespace has_command has_params : bool) : bool :=
+  (negb has_config || f_auth fl) && (negb has_namespace || f_auth fl) && (negb has_pod || f_pod fl)
+  && (negb has_command || f_command fl) && (negb has_params || f_params fl).
 
 (* ---------- correspondence cases ---------- *)
 
@@ -288,8 +298,10 @@ Inductive secrets_case :=
 | CKey (k : bytes) (go_secret : bool)
      (* strings.HasPrefix(strings.ToLower(k), "secret_") evaluated by Go *)
 | CHist (profiles : list bytes) (h : list op) (observed : list resp) (files : list (N * params))
-| CKube (stored shown : kube_rec).
-     (* a Kubernetes unit: the record in its status file, and what a status / list reply shows *)
+| CKube (fl : kube_flags) (stored shown : kube_rec)
+     (* a Kubernetes unit of a work type with these flags: the record in its status file, and
+        what a status / list reply shows *)
+| CKubeSubmit (fl : kube_flags) (has_config has_pod has_namespace has_command has_params : bool) (refused_as_not_allowed : bool).
      (* a history on the real daemon: the projected reply to every operation, and the parameter
         maps found in the status files at the end *)
 
@@ -299,8 +311,10 @@ Definition secrets_check (c : secrets_case) : bool :=
   | CHist profiles h observed files =>
     let '(st, rs) := run profiles init h in
     beq_resps rs observed && beq_disk (disk st) files
-  | CKube stored shown =>
-    let v := kube_view stored in
+  | CKubeSubmit fl hc hp hn hcmd hpar refused =>
+    Bool.eqb (negb (kube_accepts fl hc hp hn hcmd hpar)) refused
+  | CKube fl stored shown =>
+    let v := kube_view fl stored in
     beq_bytes (k_config v) (k_config shown) && beq_bytes (k_pod v) (k_pod shown)
     && beq_bytes (k_namespace v) (k_namespace shown) && beq_bytes (k_image v) (k_image shown)
   end.
